@@ -220,11 +220,13 @@ static void loop_child(const void *job, size_t n) {
 		size_t len = env_out_len() - off; const uint8_t *w = env_out() + off; off = env_out_len();
 		if (len == 0) res_infra("case %u produced no output", start + i);
 		/* what did the sender put on the wire?  strip framing with the reference codec to know the message */
-		static rc_pkt_t pk[2]; char err[100];
-		if (rc_decode_strict(w, len, pk, 2, err, sizeof err) != 1 || pk[0].nmsgs != 1) { res_printf("C sender_output_malformed 1\n"); continue; }   /* C01's finding, not ours */
+		/* the receiver has to deliver the message that was SUBMITTED (address, type, data; the sequence number is the
+		 * sender's), whatever the sender made of it on the wire */
 		env_push_quiet(w, len); vs_point(); hx_quiesce();
 		uint8_t *got = bidib_read_message(); cases++;
-		if (!got || got[0] + 1 != pk[0].msgs[0].rawlen || memcmp(got, pk[0].msgs[0].raw, (size_t) got[0] + 1)) {
+		uint8_t expm[200]; int depth = 0; while (depth < 3 && c.addr[depth]) depth++;
+		int el = rc_build_msg(expm, c.addr, got && got[0] >= 3 + depth ? got[2 + depth] : 0, c.type, c.data, c.dlen);
+		if (!got || got[0] + 1 != el || memcmp(got, expm, (size_t) el)) {
 			char hc[300]; human_case(&c, hc, sizeof hc);
 			res_violation("loopback-differs: the receiver does not decode what the library's own sender emitted", "%s: wire=%s delivered=%s", hc, hx_hex(w, len), got ? hx_hex(got, (size_t) got[0] + 1) : "(nothing)");
 			free(got); res_printf("I %u\n", start + i); break;
